@@ -25,6 +25,7 @@ func init() {
 }
 
 func runC39(c *core.Ctx) {
+	checkKeyCountBoundAgreement(c)
 	checkAddressFromDeclaredThreshold(c)
 	fn := c.Fn(pkValidation, "checkTransactionSignatures")
 	verify := eng.Obj(c, pkSig, "Verify")
